@@ -92,7 +92,7 @@ Definition unquote (v : aval) : option str :=
 Fixpoint type_value (l : list dattr) : option str :=
   match l with
   | [] => None
-  | a :: r => if str_eqb (da_name a) type_name then unquote (da_val a) else type_value r
+  | a :: r => if str_eqb (render_aname (da_name a)) type_name then unquote (da_val a) else type_value r
   end.
 (* the element's content is raw text: `style`; `script` unless its type names something else *)
 Definition is_raw (special : list (str * option (list str))) (name : str) (l : list dattr) : bool :=
@@ -307,7 +307,7 @@ Proof.
   cbn [forallb] in Hl. apply andb_true_iff in Hl. destruct Hl as [Ha Hl].
   destruct (dattr_ok_parts a Ha) as (_ & _ & _ & Hv).
   cbn [attr_tokens get_attribute_value a_name a_value type_value].
-  destruct (str_eqb (da_name a) type_name); [|apply IH; exact Hl].
+  destruct (str_eqb (render_aname (da_name a)) type_name); [|apply IH; exact Hl].
   destruct (value_text (da_val a)) as [t|] eqn:Et.
   - destruct (get_unquoted_value_text _ _ Hv Et) as [Hu Hne].
     destruct t as [|c t]; [contradiction|]. rewrite Hu. cbn [bind].
